@@ -96,6 +96,16 @@ func init() {
 		"CompareFS's second walk (extra paths in the target) and the seen-set",
 		"the destination filesystems' own Write/OpenFile (C01, C04) and that data written is data read back",
 	}
+	propAssumptions["C04"] = []string{
+		"scope: util/bitmap (the block/inode allocation bitmaps of ext4) and the ext4 file handle; bitmaps hold at most 2^40 bytes; the receiver is a separately allocated *Bitmap",
+		"ext4 handle assumptions as in C10 (contiguous extent list covering the size, block size in {1024,2048,4096,65536})",
+		"Bitmap.FreeList: BOUNDED check only (all bitmaps of 0..3 bytes against a bit-by-bit reference), not a proof",
+	}
+	propNotDecided["C04"] = []string{
+		"the property as stated - arbitrary sequences of Mkdir/create/write/append/Symlink/Remove/Chmod/Chown/Chtimes compared with a reference tree, live and after re-opening: ext4.go's mutators (allocateExtents, writeDirectory, mkDirEntry, Remove, extendExtentTree ...) are not under contract",
+		"ext4 File.Write, directory and inode encoders/decoders (see C19 for the codecs that are under contract)",
+		"Bitmap.FreeList beyond the bound of the bounded check; its use in allocateExtents",
+	}
 	propAssumptions["C12"] = []string{"partition.Read: GPT is probed before MBR (call-site assertions); filesystem probing in disk.GetFilesystem is not under contract"}
 	propNotDecided["C12"] = []string{"filesystem type recognition (disk.GetFilesystem and the per-filesystem Read acceptance tests)", "stale bytes of a previous filesystem", "labels and contents"}
 }
